@@ -8,7 +8,7 @@
    Runtime part (process table, /dev/shm, signals): bounded fault enumeration on real processes,
    harness/c05_faults.py, compared with this model by ExecutorCheck.check_scenario. *)
 From Coq Require Import List ZArith Bool Arith.
-From EKW Require Import Net.Executor Net.ExecutorProofs.
+From EKW Require Import Net.Executor Net.ExecutorProofs Net.Teardown Net.TeardownProofs.
 From EKW Require Net.ExecutorCheck.
 Import ListNotations.
 
@@ -130,6 +130,58 @@ Example C05_terminate_nonvacuous :
   /\ no_live_child e = false /\ no_live_child (fst (terminate e)) = true.
 Proof. vm_compute. repeat split. Qed.
 
+(* (c), timed (model Net/Teardown.v: clock readings, the timeout arithmetic of the code, and what
+   Process.join does with the timeout it is given -- None waits for ever, more than INT_MAX ms raises
+   OverflowError which the teardown swallows together with the kill).
+   Whatever the epoch of the monotonic clock and whatever the workers are doing (idle, busy for any
+   time, never coming back, already dead): every join gets a timeout between 0 and the grace period,
+   the worker phase ends at most one grace period after its deadline was taken, and no worker is alive *)
+Theorem C05_teardown_within_grace : forall mono0 now0 ws,
+  let '(ws', a, x) := reap_t mono0 now0 ws in
+  no_live_worker ws' = true /\ (exists e, x = Some e /\ (now0 <= e <= now0 + grace)%Z) /\ Forall join_in_grace a.
+Proof. exact reap_t_within_grace. Qed.
+
+(* the same for ANY way of deriving the timeouts, provided it always yields a number poll(2) accepts:
+   the teardown ends and kills whoever has not left *)
+Theorem C05_teardown_any_usable_policy : forall policy, usable policy -> forall ws now,
+  let '(ws', a, x) := reap_with policy now ws in
+  no_live_worker ws' = true /\ (exists e, x = Some e /\ (now <= e)%Z) /\ Forall join_ok a.
+Proof. exact reap_with_usable. Qed.
+
+(* the timed teardown IS Executor.terminate of Net/Executor.v: same workers killed (a worker that
+   needs longer than the grace period is that model's `Stuck`), same states afterwards -- so the
+   theorems above about terminate hold of the timed code, and its time is bounded *)
+Theorem C05_terminate_is_timed : forall mono0 e tws, terminating e = false -> workers e = abs_workers tws ->
+  let '(ws', a, x) := reap_t mono0 0 tws in
+  workers (fst (terminate e)) = abs_workers ws'
+  /\ snd (terminate e) = shutdown_msgs (workers e) ++ kills a
+       ++ (if is_alive (shm e) then [ShmShutdown] else []) ++ (if is_alive (ds e) then [KillDs] else [])
+  /\ (exists end_, x = Some end_ /\ (0 <= end_ <= grace)%Z).
+Proof. exact terminate_is_timed. Qed.
+
+Example C05_teardown_nonvacuous :
+  reap_t 1234500 0 [(0, TLeaves 2000); (1, TNever); (2, TLeaves 4000); (3, TLeaves 6000); (4, TExited 1)]
+  = ([(0, TExited 0); (1, TExited (-9)); (2, TExited 0); (3, TExited (-9)); (4, TExited 1)],
+     [TJoin 0 (Some 5000%Z); TJoin 1 (Some 3000%Z); TKill 1; TJoinDead 1; TJoin 2 (Some 0%Z); TJoin 3 (Some 0%Z); TKill 3; TJoinDead 3;
+      TJoinDead 4],
+     Some 5000%Z)
+  /\ abs_workers [(0, TLeaves 2000); (1, TNever); (2, TLeaves 4000); (3, TLeaves 6000); (4, TExited 1)]
+     = [(0, Alive); (1, Stuck); (2, Alive); (3, Stuck); (4, Exited 1)].
+Proof. vm_compute. split; reflexivity. Qed.
+
+(* the hypotheses are needed: a deadline read from the wall clock with the remaining time computed
+   against the monotonic clock is not usable -- join raises, nobody is killed, the stuck worker stays;
+   and with no timeout at all the teardown never ends *)
+Example C05_teardown_unusable_policies :
+  ~ usable (mixed_policy 1234500 1790000000000 0)
+  /\ (let '(ws', a, x) := reap_with (mixed_policy 1234500 1790000000000 0) 0 [(0, TLeaves 0); (1, TNever)] in
+      no_live_worker ws' = false /\ kills a = [])
+  /\ snd (reap_with (fun _ => None) 0 [(0, TLeaves 100); (1, TNever)]) = None.
+Proof.
+  split; [|split; [vm_compute; split; reflexivity|vm_compute; reflexivity]].
+  intros U. destruct (U 0%Z) as [t [E L]]. vm_compute in E. injection E as <-. vm_compute in L. apply L. reflexivity.
+Qed.
+
 (* over EVERY history of loop iterations and faults (any order, any number): the executor has
    terminated exactly when it has sent its one Exit/Failure report, and then no child is alive *)
 Theorem C05_history_invariant : forall xs e e' a, terminating e = false -> run_evs e xs = (e', a) ->
@@ -178,6 +230,9 @@ Print Assumptions C05_run_never_invents.
 Print Assumptions C05_terminate_covers_children.
 Print Assumptions C05_terminate_no_live_child.
 Print Assumptions C05_terminate_idempotent.
+Print Assumptions C05_teardown_within_grace.
+Print Assumptions C05_teardown_any_usable_policy.
+Print Assumptions C05_terminate_is_timed.
 Print Assumptions C05_history_invariant.
 Print Assumptions C05_no_segments_left_refuted.
 Print Assumptions C05_no_segments_left_partial.
